@@ -144,7 +144,7 @@ package lnwallet
 //@   site call htlcHasModification: assert arg(0) == lc.updateLogs.Remote && arg(i) == htlcIndex
 //@   site call Sum256: assert arg(0) == sliceof(preimage)
 //@   site call appendUpdate: assert ret(lookupHtlc) != nil && !ret(htlcHasModification) && ret(lookupHtlc).RHash == ret(Sum256) &&
-//@        arg(0) == lc.updateLogs.Local && arg(pd).EntryType == Settle && arg(pd).Amount == ret(lookupHtlc).Amount &&
+//@        arg(0) == lc.updateLogs.Local && arg(pd).LogIndex == lc.updateLogs.Local.logIndex && arg(pd).EntryType == Settle && arg(pd).Amount == ret(lookupHtlc).Amount &&
 //@        arg(pd).ParentIndex == htlcIndex && arg(pd).RPreimage == preimage
 //@   site call markHtlcModified: assert arg(0) == lc.updateLogs.Remote && arg(i) == htlcIndex && called(appendUpdate)
 //@   site return nil: assert called(appendUpdate) && called(markHtlcModified)
@@ -155,7 +155,7 @@ package lnwallet
 //@   site call htlcHasModification: assert arg(0) == lc.updateLogs.Local && arg(i) == htlcIndex
 //@   site call Sum256: assert arg(0) == sliceof(preimage)
 //@   site call appendUpdate: assert ret(lookupHtlc) != nil && !ret(htlcHasModification) && ret(lookupHtlc).RHash == ret(Sum256) &&
-//@        arg(0) == lc.updateLogs.Remote && arg(pd).EntryType == Settle && arg(pd).Amount == ret(lookupHtlc).Amount &&
+//@        arg(0) == lc.updateLogs.Remote && arg(pd).LogIndex == lc.updateLogs.Remote.logIndex && arg(pd).EntryType == Settle && arg(pd).Amount == ret(lookupHtlc).Amount &&
 //@        arg(pd).ParentIndex == ret(lookupHtlc).HtlcIndex && arg(pd).RPreimage == preimage
 //@   site call markHtlcModified: assert arg(0) == lc.updateLogs.Local && arg(i) == htlcIndex && called(appendUpdate)
 //@   site return nil: assert called(appendUpdate) && called(markHtlcModified)
@@ -165,7 +165,7 @@ package lnwallet
 //@   site call lookupHtlc: assert arg(0) == lc.updateLogs.Remote && arg(i) == htlcIndex
 //@   site call htlcHasModification: assert arg(0) == lc.updateLogs.Remote && arg(i) == htlcIndex
 //@   site call appendUpdate: assert ret(lookupHtlc) != nil && !ret(htlcHasModification) &&
-//@        arg(0) == lc.updateLogs.Local && arg(pd).EntryType == Fail && arg(pd).Amount == ret(lookupHtlc).Amount &&
+//@        arg(0) == lc.updateLogs.Local && arg(pd).LogIndex == lc.updateLogs.Local.logIndex && arg(pd).EntryType == Fail && arg(pd).Amount == ret(lookupHtlc).Amount &&
 //@        arg(pd).ParentIndex == htlcIndex && arg(pd).RHash == ret(lookupHtlc).RHash
 //@   site call markHtlcModified: assert arg(0) == lc.updateLogs.Remote && arg(i) == htlcIndex && called(appendUpdate)
 //@   site return nil: assert called(appendUpdate) && called(markHtlcModified)
@@ -175,7 +175,7 @@ package lnwallet
 //@   site call lookupHtlc: assert arg(0) == lc.updateLogs.Remote && arg(i) == htlcIndex
 //@   site call htlcHasModification: assert arg(0) == lc.updateLogs.Remote && arg(i) == htlcIndex
 //@   site call appendUpdate: assert ret(lookupHtlc) != nil && !ret(htlcHasModification) &&
-//@        arg(0) == lc.updateLogs.Local && arg(pd).EntryType == MalformedFail && arg(pd).Amount == ret(lookupHtlc).Amount &&
+//@        arg(0) == lc.updateLogs.Local && arg(pd).LogIndex == lc.updateLogs.Local.logIndex && arg(pd).EntryType == MalformedFail && arg(pd).Amount == ret(lookupHtlc).Amount &&
 //@        arg(pd).ParentIndex == htlcIndex && arg(pd).RHash == ret(lookupHtlc).RHash
 //@   site call markHtlcModified: assert arg(0) == lc.updateLogs.Remote && arg(i) == htlcIndex && called(appendUpdate)
 //@   site return nil: assert called(appendUpdate) && called(markHtlcModified)
@@ -185,7 +185,7 @@ package lnwallet
 //@   site call lookupHtlc: assert arg(0) == lc.updateLogs.Local && arg(i) == htlcIndex
 //@   site call htlcHasModification: assert arg(0) == lc.updateLogs.Local && arg(i) == htlcIndex
 //@   site call appendUpdate: assert ret(lookupHtlc) != nil && !ret(htlcHasModification) &&
-//@        arg(0) == lc.updateLogs.Remote && arg(pd).EntryType == Fail && arg(pd).Amount == ret(lookupHtlc).Amount &&
+//@        arg(0) == lc.updateLogs.Remote && arg(pd).LogIndex == lc.updateLogs.Remote.logIndex && arg(pd).EntryType == Fail && arg(pd).Amount == ret(lookupHtlc).Amount &&
 //@        arg(pd).ParentIndex == ret(lookupHtlc).HtlcIndex && arg(pd).RHash == ret(lookupHtlc).RHash
 //@   site call markHtlcModified: assert arg(0) == lc.updateLogs.Local && arg(i) == htlcIndex && called(appendUpdate)
 //@   site return nil: assert called(appendUpdate) && called(markHtlcModified)
@@ -906,3 +906,16 @@ package lnwallet
 //@        arg(0) == state.LocalChanCfg.PaymentBasePoint.PubKey && arg(1) == state.RemoteChanCfg.PaymentBasePoint.PubKey
 //@   site call DeriveStateHintObfuscator nth 1: assert !state.IsInitiator &&
 //@        arg(0) == state.RemoteChanCfg.PaymentBasePoint.PubKey && arg(1) == state.LocalChanCfg.PaymentBasePoint.PubKey
+//@
+//@ // ---- C01: a settle/fail entry is created in the log of the party that sent it, under that log's next index, for the HTLC it
+//@ // ---- names (once), and gets its removal height on the chain it is committed to - whatever kind of fail it is
+//@
+//@ func (pd *paymentDescriptor) setCommitHeight
+//@   props C01
+//@   let t = old(pd.EntryType)
+//@   ensures (t == Settle || t == Fail || t == MalformedFail || t == FeeUpdate) && whoseCommitChain == lntypes.Local ==> pd.removeCommitHeights.Local == nextHeight
+//@   ensures (t == Settle || t == Fail || t == MalformedFail || t == FeeUpdate) && whoseCommitChain == lntypes.Remote ==> pd.removeCommitHeights.Remote == nextHeight
+//@   ensures (t == Add || t == NoOpAdd || t == FeeUpdate) && whoseCommitChain == lntypes.Local ==> pd.addCommitHeights.Local == nextHeight
+//@   ensures (t == Add || t == NoOpAdd || t == FeeUpdate) && whoseCommitChain == lntypes.Remote ==> pd.addCommitHeights.Remote == nextHeight
+//@   ensures (t == Add || t == NoOpAdd) ==> pd.removeCommitHeights.Local == old(pd.removeCommitHeights.Local) && pd.removeCommitHeights.Remote == old(pd.removeCommitHeights.Remote)
+//@   ensures (t == Settle || t == Fail || t == MalformedFail) ==> pd.addCommitHeights.Local == old(pd.addCommitHeights.Local) && pd.addCommitHeights.Remote == old(pd.addCommitHeights.Remote)
